@@ -1,0 +1,66 @@
+//go:build verif
+
+package virtual
+
+import (
+	"github.com/buildbarn/bb-storage/pkg/digest"
+)
+
+// Read-only dump hook used by the model-checking harness /verif/harness/files
+// (property C16). It only READS internal state of pool-backed files and of
+// the stateful FUSE/NFS handle decorators in front of them. It acquires no
+// locks: callers use it at quiescent points of a controlled schedule, from a
+// sequential driver, or from inside a pool file operation (which the file
+// invokes while holding its own lock).
+
+// VerifFilesState is a snapshot of the reference counting state of a
+// pool-backed file.
+type VerifFilesState struct {
+	// Fields of fileBackedFile.
+	ReferenceCount           uint
+	WritableDescriptorsCount uint
+	FrozenDescriptorsCount   uint
+	FileIsNil                bool
+	Size                     uint64
+	IsExecutable             bool
+	ChangeID                 uint64
+	NoMoreWritersWakeupSet   bool
+	UnfreezeWakeupSet        bool
+	// CachedDigest is digest.BadDigest if no digest is cached.
+	CachedDigest digest.Digest
+
+	// Link count kept by the stateful handle decorator (-1 if the
+	// leaf is not decorated).
+	HandleLinkCount int64
+}
+
+// VerifFilesDump returns the state of a pool-backed file, looking
+// through the stateful handle decorators. ok is false if leaf is not
+// (a decorated) pool-backed file.
+func VerifFilesDump(leaf LinkableLeaf) (s VerifFilesState, ok bool) {
+	s.HandleLinkCount = -1
+	for {
+		switch l := leaf.(type) {
+		case *fuseStatefulLinkableLeaf:
+			s.HandleLinkCount = int64(l.linkCount.Load())
+			leaf = l.LinkableLeaf
+		case *nfsStatefulLinkableLeaf:
+			s.HandleLinkCount = int64(l.linkCount)
+			leaf = l.LinkableLeaf
+		case *fileBackedFile:
+			s.ReferenceCount = l.referenceCount
+			s.WritableDescriptorsCount = l.writableDescriptorsCount
+			s.FrozenDescriptorsCount = l.frozenDescriptorsCount
+			s.FileIsNil = l.file == nil
+			s.Size = l.size
+			s.IsExecutable = l.isExecutable
+			s.ChangeID = l.changeID
+			s.NoMoreWritersWakeupSet = l.noMoreWritersWakeup != nil
+			s.UnfreezeWakeupSet = l.unfreezeWakeup != nil
+			s.CachedDigest = l.cachedDigest
+			return s, true
+		default:
+			return s, false
+		}
+	}
+}
